@@ -25,8 +25,8 @@ MANIFEST = dict(
     text=("One specification function says what an HTTP ammo provider delivers for (file, limit, passes, chosencases): exactly the entries whose "
           "tag is listed, in file order, cyclically; limit counts delivered entries, passes counts file passes; Run ends nil when the ammo is "
           "consumed, with an error when no entry is chosen. TLC checks these statements on every small file and exports the whole matrix "
-          "(files x 6 chosencases settings incl. the empty tag and two settings matching nothing x 4 limits x 3 passes x preload on/off x "
-          "uri/uripost/raw/json-lines/json-array: ~14.7k cells quick, ~75k thorough). Each cell is executed on the real provider built by the "
+          "(files x 5-6 chosencases settings incl. the empty tag and settings matching nothing x 3-4 limits x 3 passes x preload on/off x "
+          "uri/uripost/raw/json-lines/json-array: ~9.2k cells quick; thorough also under a hostile layout: ~163k). Each cell is executed on the real provider built by the "
           "registered plugin constructor; the observed deliveries, whether Acquire reported end of ammo, and the class of Run's result "
           "(nil | error | cancel; a hang is confirmed twice under a watchdog >= 1000x the normal time) must equal the function — the same "
           "function for preload on and off, which is what 'behaviour-preserving' means. Right level: the property is a finite function over a "
@@ -47,12 +47,12 @@ def run(tier, v):
     sfx = "_big" if thorough else ""
     states, trans, detail = al.design_level(
         ["AmmoFormats_exh%s.cfg" % sfx],
-        ["AmmoFormats_neg_noreset.cfg", "AmmoFormats_neg_sellimit.cfg"],
+        ["AmmoFormats_neg_sellimit.cfg"] + (["AmmoFormats_neg_noreset.cfg"] if thorough else []),
         workers=16 if thorough else 8, heap="12g" if thorough else "4g", coverage=thorough)
     d = vlib.scratch()
     files = al.export_cases("AmmoFormats_export_C14%s.cfg" % sfx, d, "c14")
     b = vlib.harness_build()
-    nrand = 100 if thorough else 15
+    nrand = 100 if thorough else 25
     samples, tstates, bad = [], 0, 0
     batches = [[f] for f in files] if thorough else [files]
     stats = []
@@ -83,14 +83,14 @@ def run(tier, v):
         "exhaustive": True,
         "evaluations": total,
         "distinct_nontrivial": sum(s["from_tlc"] for s in stats),
-        "rule": ("every file of 1..%d items (>= 1 entry; 3 tagged entries, header line, blank) x chosencases in {none, [t1], [t1,'t 2'], [''], [zz], [t]} x "
-                 "limit {0,1,2,5} x passes {0,1,2} x preload {off,on} x {uri, uripost, raw, json lines, json array}%s, exported by TLC as a set (all "
+        "rule": ("every file of 1..%d items (>= 1 entry; 3 tagged entries, header line, blank) x chosencases in {none, [t1], [t1,'t 2'], [''], [t]%s} x "
+                 "limit {0,%s2,5} x passes {0,1,2} x preload {off,on} x {uri, uripost, raw, json lines, json array}%s, exported by TLC as a set (all "
                  "distinct); plus %d seeded random files per format with random settings" % (
-                     3 if thorough else 2, " x {plain layout, CRLF+blanks+no blank line after bodies+no final newline (json also pretty)}" if thorough else "", nrand)),
+                     3 if thorough else 2, ", [zz]" if thorough else "", "1," if thorough else "", " x {plain layout, CRLF+blanks+no blank line after bodies+no final newline (json also pretty)}" if thorough else "", nrand)),
         "diverging_cases": bad,
         "trace_spec_states": tstates,
         "design": detail,
-        "negative_controls": ["noreset", "sellimit"],
+        "negative_controls": ["sellimit"] + (["noreset"] if thorough else []),
     }
     return "model_checking", cov, [
         "renderers and projection as in C07 (trusted base); well-formed files, one consumer",
